@@ -274,9 +274,109 @@ func c01Sweep(t *testing.T, ep entryPoint, maxLen int) int64 {
 	return n
 }
 
+// c01SweepSeeds: one or two minimal valid packets per type, in the form the decoders read.
+func c01SweepSeeds() [][]byte {
+	ps := []m.Packet{
+		{Kind: m.KSR, SR: &m.SR{SSRC: 1, Reports: []m.RBlock{{SSRC: 2}}}},
+		{Kind: m.KRR, RR: &m.RR{SSRC: 1, Reports: []m.RBlock{{SSRC: 2}}, Ext: []byte{1, 2, 3, 4}}},
+		{Kind: m.KSDES, SDES: &m.SDES{Chunks: []m.SDESChunk{{Source: 1, Items: []m.SDESItem{{Type: 1, Text: []byte("ab")}}}}}},
+		{Kind: m.KBYE, BYE: &m.BYE{Sources: []uint32{1}, Reason: []byte("bye")}},
+		{Kind: m.KAPP, APP: &m.APP{Subtype: 1, SSRC: 1, Name: []byte("name"), Data: []byte{1, 2, 3}}},
+		{Kind: m.KNACK, NACK: &m.NACK{Sender: 1, Media: 2, Pairs: []m.NackPair{{PID: 3, BLP: 4}}}},
+		{Kind: m.KRRR, RRR: &m.FB{Sender: 1, Media: 2}},
+		{Kind: m.KPLI, PLI: &m.FB{Sender: 1, Media: 2}},
+		{Kind: m.KSLI, SLI: &m.SLI{Sender: 1, Media: 2, Entries: []m.SLIEntry{{First: 1, Number: 2, Picture: 3}}}},
+		{Kind: m.KFIR, FIR: &m.FIR{Sender: 1, Media: 2, Entries: []m.FIREntry{{SSRC: 3, Seq: 4}}}},
+		{Kind: m.KREMB, REMB: &m.REMB{Sender: 1, Bitrate: 1000, SSRCs: []uint32{2}}},
+		{Kind: m.KTWCC, TWCC: &m.TWCC{HdrLength: 5, Sender: 1, Media: 2, BaseSeq: 3, StatusCount: 2, RefTime: 4, FbCount: 5,
+			Chunks: []m.TWCCChunk{{Symbol: 1, Run: 2}}, Deltas: []m.TWCCDelta{{Micros: 250}, {Micros: 500}}}},
+		{Kind: m.KTWCC, TWCC: &m.TWCC{HdrLength: 5, Sender: 1, Media: 2, StatusCount: 7, Chunks: []m.TWCCChunk{{Vector: true, TwoBit: true, Symbols: []uint16{1, 0, 2, 0, 0, 0, 0}}}, Deltas: []m.TWCCDelta{{Micros: 250}, {Large: true, Micros: -250}}}},
+		{Kind: m.KCCFB, CCFB: &m.CCFB{Sender: 1, Blocks: []m.CCFBBlock{{SSRC: 2}}, Timestamp: 3}},
+		{Kind: m.KCCFB, CCFB: &m.CCFB{Sender: 1, Blocks: []m.CCFBBlock{{SSRC: 2, BeginSeq: 0, Metrics: []m.CCFBMetric{{Received: true, ATO: 1}, {}}}}, Timestamp: 3}},
+		{Kind: m.KXR, XR: &m.XR{Sender: 1, Blocks: []m.XRBlock{{BT: m.XRLossRLE, SSRC: 2, Chunks: []uint16{0x8001, 0}}, {BT: m.XRDLRR, Subs: []m.DLRRSub{{SSRC: 3}}}}}},
+		{Kind: m.KXR, XR: &m.XR{Sender: 1, Blocks: []m.XRBlock{{BT: 200, TypeSpecific: 1, Body: []byte{1, 2, 3, 4}}, {BT: m.XRRRT, NTP: 5}}}},
+		{Kind: m.KRAW, RAW: []byte{0x80, 192, 0, 1, 1, 2, 3, 4}},
+	}
+	var out [][]byte
+	for _, p := range ps {
+		if p.Kind == m.KTWCC {
+			gen.FixTWCCHeader(p.TWCC, false)
+		}
+		e, err := m.Encode(p, &m.EncOpts{D: gen.PionDialect})
+		if err != nil {
+			panic(err)
+		}
+		out = append(out, e.B)
+	}
+	return out
+}
+
+// c01FieldSweep: every 16-bit field position and every octet of a minimal packet of every type
+// is set to every hostile constant; the mutated frame is decoded alone and as a datagram made
+// of many copies of it (allocation out of proportion to a small frame must show up there).
+func c01FieldSweep(t *testing.T) int64 {
+	h16 := []uint16{0, 1, 2, 0x1FFF, 0x2000, 0x3FFF, 0x4000, 0x7FFE, 0x7FFF, 0x8000, 0x8001, 0xBFFF, 0xC000, 0xFFF0, 0xFFFE, 0xFFFF}
+	h8 := []byte{0, 1, 3, 0x1F, 0x3F, 0x40, 0x7F, 0x80, 0xBF, 0xC0, 0xFE, 0xFF}
+	var n int64
+	seeds := c01SweepSeeds()
+	for si, seed := range seeds {
+		if si%harness.Cfg.NShards != harness.Cfg.Shard {
+			continue
+		}
+		var variants [][]byte
+		for off := 2; off+1 < len(seed); off += 2 {
+			for _, v := range h16 {
+				f := append([]byte(nil), seed...)
+				f[off], f[off+1] = byte(v>>8), byte(v)
+				variants = append(variants, f)
+			}
+		}
+		for off := 0; off < len(seed); off++ {
+			for _, v := range h8 {
+				f := append([]byte(nil), seed...)
+				f[off] = v
+				variants = append(variants, f)
+			}
+		}
+		for _, f := range variants {
+			for _, total := range []int{len(f), 1500, 20000} {
+				dg := f
+				if total > len(f) {
+					dg = make([]byte, 0, total)
+					for len(dg)+len(f) <= total {
+						dg = append(dg, f...)
+					}
+				}
+				subC01.Check(t, c01Case{EP: "rtcp.Unmarshal", B: dg})
+				n++
+			}
+			// the decoder its header selects, called directly
+			if len(f) >= 2 {
+				k := m.Dispatch(f[1], f[0]&0x1f, m.Strict)
+				if f[0]&0x1f == 2 && (f[1] == 205 || f[1] == 206) {
+					k = m.KSLI
+				}
+				for _, ep := range entryPoints[1:17] {
+					if ep.Kind == k {
+						subC01.Check(t, c01Case{EP: ep.Name, B: f})
+						n++
+					}
+				}
+			}
+		}
+	}
+	return n
+}
+
 func TestC01(t *testing.T) {
 	defer harness.Uncaught(t)
 	startC01Watchdog()
+	{
+		n := c01FieldSweep(t)
+		harness.Eval(subC01Name+"/field-sweep", n)
+		harness.NonTrivialDistinct(n)
+		harness.Exhaustive(subC01Name+"/field-sweep", "18 minimal packets (all types) x every 16-bit position x 16 constants + every octet x 12 constants, each decoded alone, as 1500- and 20000-octet datagrams of repeated copies, and by its own decoder")
+	}
 	// (1) bounded-exhaustive sweep, entry points sharded over processes
 	maxLen := 40
 	if harness.Thorough() {
